@@ -20,6 +20,8 @@ type voteState struct {
 	voteCand string // "" with voteTerm != 0: term without candidate
 	logTerms []uint64
 	cfg      int // 0: S,A,B voters (C absent); 1: A is a non-voter; 2: no configuration at all
+	snapIdx  uint64 // a complete snapshot ahead of the log (0 = none): the voter's last entry is the snapshot's
+	snapTerm uint64
 }
 
 type vmsg struct {
@@ -46,7 +48,7 @@ type vcase struct {
 }
 
 func (c vcase) String() string {
-	return fmt.Sprintf("state{term %d vote (%d,%q) log %v cfg %d} msgs %v fault{write #%d %s}", c.st.term, c.st.voteTerm, c.st.voteCand, c.st.logTerms, c.st.cfg, c.msgs, c.fault.nth, c.fault.when)
+	return fmt.Sprintf("state{term %d vote (%d,%q) log %v snapshot %d/%d cfg %d} msgs %v fault{write #%d %s}", c.st.term, c.st.voteTerm, c.st.voteCand, c.st.logTerms, c.st.snapIdx, c.st.snapTerm, c.st.cfg, c.msgs, c.fault.nth, c.fault.when)
 }
 
 type vobs struct {
@@ -84,6 +86,12 @@ func runVote(c vcase, col *table.Collector) vobs {
 	if len(logs) > 0 {
 		h.StoreLogs(logs)
 	}
+	if c.st.snapIdx > 0 {
+		st := sim.FSMState{}
+		sk, _ := h.Create(1, c.st.snapIdx, c.st.snapTerm, cfg, 1, nil)
+		sk.Write([]byte(st.Encode()))
+		sk.Close()
+	}
 	h.SetUint64([]byte("CurrentTerm"), c.st.term)
 	if c.st.voteTerm != 0 {
 		h.SetUint64([]byte("LastVoteTerm"), c.st.voteTerm)
@@ -110,6 +118,9 @@ func runVote(c vcase, col *table.Collector) vobs {
 		o.violation = append(o.violation, fmt.Sprintf("restart-wrong-term: started with term %d, durable %d", maxTerm, c.st.term))
 	}
 	li, lt := lastOf(c.st.logTerms)
+	if c.st.snapIdx > li {
+		li, lt = c.st.snapIdx, c.st.snapTerm
+	}
 	for k, m := range c.msgs {
 		term := uint64(int(c.st.term) + m.term)
 		if term == 0 {
@@ -122,8 +133,10 @@ func runVote(c vcase, col *table.Collector) vobs {
 				ci = li - 1
 				if ci == 0 {
 					ct = 0
-				} else {
+				} else if int(ci) <= len(c.st.logTerms) {
 					ct = c.st.logTerms[ci-1]
+				} else {
+					ct = lt // inside the snapshot: same term, shorter log
 				}
 			}
 		case 1:
@@ -255,6 +268,10 @@ func voteCases(f func(vcase)) {
 						continue
 					}
 					states = append(states, voteState{term: term, voteTerm: v.t, voteCand: v.c, logTerms: lg, cfg: cfg})
+					if cfg != 2 && len(lg) == 1 {
+						// the log was compacted into a snapshot that is ahead of it
+						states = append(states, voteState{term: term, voteTerm: v.t, voteCand: v.c, logTerms: lg, cfg: cfg, snapIdx: 6, snapTerm: term})
+					}
 				}
 			}
 		}
